@@ -429,6 +429,28 @@ def random_case(rnd, cid):
             'spgiven': spgiven, 'rxgiven': rxgiven, 'iagiven': iagiven, 'ops': ops}
 
 
+def exercised(case, events):
+    """what a case puts in front of the clauses (vacuity accounting)"""
+    u = universe(case)
+    ifaces = {p['name'] for p in u['ph'] if p['kind'] == 'iface'}
+    multi = sum(1 for r in u['rx'] if len(set(r['ph']) - {'none'}) >= 2)
+    modes = [e['mode'] for e in events if e['ev'] == 'organize']
+    return {'reactions': len(u['rx']), 'reactions_naming_several_phases': multi,
+            'reactions_of_a_gas_or_bulk_phase': sum(1 for r in u['rx'] if len(set(r['ph']) - {'none'}) == 1
+                                                    and not (set(r['ph']) & ifaces)),
+            'reactions_with_species_without_phase': sum(1 for r in u['rx'] if 'none' in r['ph']),
+            'reactions_with_ts_species': sum(1 for r in case['rx'] if r.get('ts')),
+            'reactions_with_bep': sum(1 for r in case['rx'] if r.get('bep')),
+            'interactions': len(u['ia']), 'species': len(u['sp']),
+            'species_without_phase': sum(1 for s_ in u['sp'] if s_['phase'] == 'none'),
+            'cases_species_omitted': 0 if case['spgiven'] else 1,
+            'cases_two_interfaces': 1 if len(ifaces) >= 2 else 0,
+            'calls_first': modes.count('first'), 'calls_same_objects_same_descriptions': modes.count('same'),
+            'calls_same_objects_rebuilt_descriptions': modes.count('fresh_dicts'),
+            'calls_equal_objects_built_anew': modes.count('fresh_all'),
+            'helper_calls': sum(1 for e in events if e['ev'] == 'helper')}
+
+
 def signature(case):
     return json.dumps([[p['kind'] for p in case['ph']], [s['phase'] for s in case['sp']],
                        [[r['lhs'], r['rhs'], r.get('ts'), r.get('bep')] for r in case['rx']],
@@ -479,20 +501,25 @@ def run(ctx):
         cases = [ctx.replay_case['case']]
     else:
         rnd = random.Random(ctx.seed)
-        jobs = {'design': ('MC_OrganizePhases', ctx.pick('MC_OrganizePhases', 'MC_OrganizePhases_big'), NCPU_MODEL, ()),
+        jobs = {'design': ('MC_OrganizePhases', ctx.pick('MC_OrganizePhases', 'MC_OrganizePhases_big'),
+                           ctx.pick(NCPU_MODEL, 8), ()),
                 'beh': ('MC_OrganizePhases', 'MC_OrganizePhases_beh', 1, ()),
                 'sim': ('MC_OrganizePhases', 'MC_OrganizePhases_sim', 1,
-                        ('-simulate', 'num=%d' % ctx.pick(1200, 12000), '-depth', '20',
+                        ('-simulate', 'num=%d' % ctx.pick(1000, 12000), '-depth', '20',
                          '-seed', str(ctx.seed + 11)))}
+        if not ctx.quick:
+            jobs['design4'] = ('MC_OrganizePhases', 'MC_OrganizePhases_big4', 8, ())
         for cfg, _ in REJECTED:
             jobs[cfg] = ('MC_OrganizePhases', cfg, 2, ())
         with cf.ThreadPoolExecutor(max_workers=len(jobs)) as ex:
             futs = {k: ex.submit(core.run_tlc, m, c, None, w, None, 3000, list(x)) for k, (m, c, w, x) in jobs.items()}
             res = {k: f.result() for k, f in futs.items()}
         # (D) design model
-        _register(ctx, jobs['design'], res['design'])
-        if not res['design'].ok:
-            raise core.MachineryError('design model %s failed:\n%s' % (jobs['design'][1], res['design'].out[-4000:]))
+        for k in ('design', 'design4'):
+            if k in jobs:
+                _register(ctx, jobs[k], res[k])
+                if not res[k].ok:
+                    raise core.MachineryError('design model %s failed:\n%s' % (jobs[k][1], res[k].out[-4000:]))
         for cfg, what in REJECTED:
             bad = res[cfg]
             _register(ctx, jobs[cfg], bad)
@@ -506,14 +533,14 @@ def run(ctx):
         ctx.coverage['tlc_behaviours'] = len(raws)
         if ctx.quick:
             rnd.shuffle(raws)
-            raws = raws[:1500]
+            raws = raws[:1200]
         cases = [{'raw': p, 'cid': 'b%d' % k, 'src': 'tlc'} for k, p in enumerate(raws)]
         sims = [p for p in res['sim'].prints() if core.tagged(p, 'BEH')]
         if not sims:
             raise core.MachineryError('MC_OrganizePhases_sim produced no behaviours:\n' + res['sim'].out[-2000:])
         ctx.coverage['tlc_simulated_behaviours'] = len(sims)
         cases += [{'raw': p, 'cid': 's%d' % k, 'src': 'sim'} for k, p in enumerate(sims)]
-        cases += [random_case(rnd, 'r%d' % k) for k in range(ctx.pick(1200, 15000))]
+        cases += [random_case(rnd, 'r%d' % k) for k in range(ctx.pick(1000, 15000))]
     timing['tlc_models_and_cases'] = round(time.time() - t0, 1)
     t1 = time.time()
     results = core.pmap(execute, cases)
@@ -533,6 +560,8 @@ def run(ctx):
                 found.append(('ReplayState', case, {'src': case['src'], 'mode': m['mode'],
                                                     'spgiven': case['spgiven']}, m))
         traces.append((tid, events))
+        for key, n in exercised(case, events).items():
+            ctx.count('exercised_' + key, n)
         if tid % 487 == 0:
             ctx.sample({k: case[k] for k in ('src', 'ph', 'sp', 'rx', 'ia', 'spgiven', 'ops')}, cap=6)
     t2 = time.time()
